@@ -295,11 +295,16 @@ class SandboxedEnvironment(Environment):
         # An instance is called through its class's __call__ method, which
         # can carry the markers as well.
         call = getattr(type(obj), "__call__", None)
+        # Context.call uses the instance's own __call__ attribute when it is
+        # decorated with pass_context and the like.
+        icall = getattr(obj, "__call__", None)
         return not (
             getattr(obj, "unsafe_callable", False)
             or getattr(obj, "alters_data", False)
             or getattr(call, "unsafe_callable", False)
             or getattr(call, "alters_data", False)
+            or getattr(icall, "unsafe_callable", False)
+            or getattr(icall, "alters_data", False)
         )
 
     def call_binop(
